@@ -237,6 +237,27 @@ def run(ctx):
                         texts[rec["id"]] = text
                         k += 1
                         ctx.evaluations += 1
+    # directed: a body line that IS an opening brace (column 0, nothing else) in section A - once or twice, first / in the
+    # middle / last - with two more sections behind, between or before it.  The library restarts A's body there (A's own
+    # business); B and C are built from their own lines (seeded/C13j-stray-open-brace: brace indices kept in a deque that is
+    # never cleared, every later section starts inside the earlier one)
+    k = 0
+    for a_h, b_h, c_h in (("EasySingle", "ExpertSingle", "HardDrums"), ("ExpertDrums", "EasyDrums", "MediumKeyboard")):
+        for pos in (0, 1, 2, 3):
+            for nbr in (1, 2):
+                a_raw = ["  10 = N 0 0", "  20 = N 1 0", "  30 = N 2 0"]
+                a_raw[pos:pos] = ["{"] * nbr
+                b_raw = ["  768 = N 0 0", "  960 = N 4 0", "  960 = S 2 100", "  1152 = N 1 0"]
+                c_raw = ["  5 = N 3 0", "  50 = E solo", "  700 = N 2 30"]
+                for order in ([a_h, b_h, c_h], [b_h, a_h, c_h], [a_h, c_h, b_h]):
+                    for want in (None, [b_h], [b_h, c_h], [a_h, b_h]):
+                        raw = {a_h: a_raw, b_h: b_raw, c_h: c_raw}
+                        ref = {a_h: ["  400 = N 3 0", "  500 = E x"], b_h: b_raw, c_h: c_raw}
+                        rec, text = record_from_texts(f"brace{k}", build_raw(order, raw), build_raw(order, ref), order, {a_h}, want, forms[k % 3])
+                        recs.append(rec)
+                        texts[rec["id"]] = text
+                        k += 1
+                        ctx.evaluations += 1
     by_id = {x["id"]: x for x in recs}
     for rid, p, clause in ctx.validate(recs):
         rec = by_id[rid]
